@@ -67,16 +67,18 @@ def column_obligations(eng, acc, cols, vals, betas, info):
     acc.oblige(eng, "icolumns.k_maximises_penalised_saving", subset_dominance(value, vals, betas), dict(info, icolumns=cols))
 
 
-def affected_obligations(eng, acc, det, out, X, anoms, cols, n, p, m, info, pa, pb, cscale):
-    """Called from the MVCAPA harness of C03 (mode 'c16') on every path."""
+def affected_obligations(eng, acc, det, out, X, anoms, cols, n, p, m, info, pa, pb, cscale, colmap=None):
+    """Called from the MVCAPA harness of C03 (mode 'c16') on every path.  colmap[k]: which variable's savings stand
+    in column position k of the frame passed to predict (identity unless the caller reordered labelled columns)."""
     beta_s = 2 * cscale * z3.RealVal(Fraction(math.log(1 * p)))
+    cm = list(range(p)) if colmap is None else list(colmap)
     for (s, e), cl in zip(anoms, cols):
         if e - s == 1:
-            vals = [z3.Real(f"P_{s}_{e}_{j}") for j in range(p)]
+            vals = [z3.Real(f"P_{s}_{e}_{cm[j]}") for j in range(p)]
             betas = list(pb)
             kind = "point"
         else:
-            vals = [z3.Real(f"S_{s}_{e}_{j}") for j in range(p)]
+            vals = [z3.Real(f"S_{s}_{e}_{cm[j]}") for j in range(p)]
             betas = [beta_s] * p
             kind = "collective"
         column_obligations(eng, acc, cl, vals, betas, dict(info, anomaly=(s, e), kind=kind))
@@ -141,6 +143,11 @@ def jobs(tier):
         units = [(p, "general") for p in range(1, 7)] + [(5, "equal"), (6, "equal")]
     for (n, p, m, M, creg, preg) in mv:
         out.append(Job(C3, "make_mvcapa", dict(n=n, p=p, m=m, M=M, mode="c16", creg=creg, preg=preg), split=True))
+    # fitted on labelled columns, asked about the same labelled columns in another order: everything reported refers
+    # to the positions in the frame passed to predict / transform
+    for (n, p, m, M, creg, preg, perm) in ([(2, 2, 2, 2, "general", "sparse", (1, 0))] if tier == "quick" else
+                                           [(2, 2, 2, 2, "general", "sparse", (1, 0)), (2, 2, 2, 2, "sparse", "general", (1, 0)), (2, 3, 2, 2, "sparse", "sparse", (2, 0, 1))]):
+        out.append(Job(C3, "make_mvcapa", dict(n=n, p=p, m=m, M=M, mode="c16", creg=creg, preg=preg, colperm=perm), split=True))
     for (p, nb) in units:
         out.append(Job("harness.c16", "make_unit", dict(p=p, nbetas=nb), split=p >= 4))
     return out
@@ -178,12 +185,13 @@ def replay(cx):
     anoms = [(int(i.left), int(i.right)) for i in out["ilocs"]]
     cols = [[int(c) for c in np.asarray(v).ravel()] for v in out["icolumns"]]
     beta_s = 2 * env.get("cscale", 0.0) * math.log(p)
+    cm = info.get("colperm") or list(range(p))
     for (s, e), cl in zip(anoms, cols):
         if e - s == 1:
-            vals = [env.get(f"P_{s}_{e}_{j}", 0.0) for j in range(p)]
+            vals = [env.get(f"P_{s}_{e}_{cm[j]}", 0.0) for j in range(p)]
             betas = list(pens[3])
         else:
-            vals = [env.get(f"S_{s}_{e}_{j}", 0.0) for j in range(p)]
+            vals = [env.get(f"S_{s}_{e}_{cm[j]}", 0.0) for j in range(p)]
             betas = [beta_s] * p
         pr = _plain_column_problems(cl, vals, betas)
         if pr:
@@ -193,10 +201,17 @@ def replay(cx):
     S = {k: v for k, v in env.items() if k.startswith("S_")}
     P = {k: v for k, v in env.items() if k.startswith("P_")}
     with proxy.native():
-        det = MVCAPA(TableSaving(p=p, values=S), TableSaving(p=p, tag="P", values=P),
-                     collective_penalty=_num_penalty(pens[0], pens[1]), collective_penalty_scale=float(env.get("cscale", 0.0)),
-                     point_penalty=_num_penalty(pens[2], pens[3]), min_segment_length=info["m"], max_segment_length=info["M"])
-        dense = det.fit(dummy_X(n, p)).transform(dummy_X(n, p))
+        if info.get("colperm") is not None:
+            from .c03 import TagSaving, tag_X
+            det = MVCAPA(TagSaving(p=p, values=S), TagSaving(p=p, tag="P", values=P),
+                         collective_penalty=_num_penalty(pens[0], pens[1]), collective_penalty_scale=float(env.get("cscale", 0.0)),
+                         point_penalty=_num_penalty(pens[2], pens[3]), min_segment_length=info["m"], max_segment_length=info["M"])
+            dense = det.fit(tag_X(n, p)).transform(tag_X(n, p, info["colperm"]))
+        else:
+            det = MVCAPA(TableSaving(p=p, values=S), TableSaving(p=p, tag="P", values=P),
+                         collective_penalty=_num_penalty(pens[0], pens[1]), collective_penalty_scale=float(env.get("cscale", 0.0)),
+                         point_penalty=_num_penalty(pens[2], pens[3]), min_segment_length=info["m"], max_segment_length=info["M"])
+            dense = det.fit(dummy_X(n, p)).transform(dummy_X(n, p))
     want = np.zeros((n, p), dtype=int)
     for lab, ((s, e), cl) in enumerate(zip(anoms, cols), start=1):
         for c in cl:
